@@ -168,6 +168,8 @@ def conjunction_paths(body, atom_of, limit=400):
             t, neg = strip(t[2]), not neg
         if t[0] == "const" and isinstance(t[1], bool):
             return ("const", t[1] != neg)
+        if t[0] == "binop" and t[1] in ("Eq", "Ne", "Lt", "Le", "Gt", "Ge"):
+            t = ("call", "binop::" + t[1], [t[2], t[3]], None)
         if t[0] != "call":
             return None
         a = atom_of(t)
@@ -262,3 +264,34 @@ def is_conjunction_of(body, atom_of, atoms):
         else:
             return False, "result not recognised"
     return True, "true exactly when %s" % " && ".join(sorted(map(str, atoms)))
+
+
+class PseudoSite:
+    """an assignment that is part of another statement (a field of a struct-update expression)"""
+    def __init__(self, site, node):
+        self.body, self.bb, self.si, self.node, self._site = site.body, site.bb, site.si, node, site
+
+    def loc(self):
+        return self._site.loc()
+
+    def span(self):
+        return self._site.span()
+
+
+def element_update(body, site):
+    """`Element { f: v, ..src }` builds every field; the fields copied from the same field of an existing Element are
+    unchanged.  -> {changed field: operand} for such an update, None for a plain constructor (no field copied)"""
+    rv = site.node["rv"]
+    if rv.get("k") != "agg" or rv.get("adt") != "element::Element":
+        return None
+    changed, kept = {}, 0
+    for f, o in zip(rv["fields"], rv["ops"]):
+        p = mir.op_place(o)
+        if p is not None:
+            cp = body.canon(p)
+            last = cp["p"][-1] if cp["p"] else None
+            if isinstance(last, dict) and last.get("adt") == "element::Element" and last.get("f") == f:
+                kept += 1
+                continue
+        changed[f] = o
+    return changed if kept else None
